@@ -15,7 +15,12 @@ JudgeIntersect(B) ==
      \o [k \in 1..Len(B.res) |->
        <<IF oneshot(B.res[k]) THEN "P:C19:batch-independent-skip-ahead" ELSE "P:C19:skip-ahead", B.res[k].skip_exc = "ok" /\ B.res[k].skip = sk>>]
      \o [k \in 1..Len(B.res) |->
-       <<IF oneshot(B.res[k]) THEN "P:C19:batch-independent-leader-follower" ELSE "P:C19:leader-follower", B.res[k].lf_exc = "ok" /\ B.res[k].lf = lf>>])
+       <<IF oneshot(B.res[k]) THEN "P:C19:batch-independent-leader-follower" ELSE "P:C19:leader-follower", B.res[k].lf_exc = "ok" /\ B.res[k].lf = lf>>]
+     \* a leader-follower model fed ONE operand's trace of the two-finger intersections (the only trace collected): the elements that operand presented,
+     \* i.e. those the merge consumed plus the head it was looking at when the other side ran out
+     \o [q \in 1..2 |-> <<"P:C19:leader-follower-operand", B.oponly[q] = -9 \/ B.oponly[q] =
+            SumSeq([j \in 1..Len(B.pairs) |-> LET r == TwoFinger("and", B.pairs[j][1], B.pairs[j][2])
+                                                 IN IF q = 1 THEN Min(r.ia, Len(B.pairs[j][1])) ELSE Min(r.ib, Len(B.pairs[j][2]))])>>])
 JudgeSwaps(B) ==
   LET exp == SwapsOf(B.lists, B.radix, B.lat) + (IF B.deep = 1 THEN 0 ELSE 0)
   IN Fails(<< <<IF B.lat = -1 THEN "P:C19:swaps-compares" ELSE "P:C19:swaps-latency", B.swaps[1] = exp>>,
